@@ -241,6 +241,9 @@ func (vc *VC) execFunc(fn *ssa.Function, args []Val, st *State, reach string, de
 	for _, r := range rets {
 		conds = append(conds, r.cond)
 	}
+	if depth == 0 {
+		vc.retConds = append([]string{}, conds...)
+	}
 	retReach := or(conds...)
 	retReach = vc.define("ret_"+fn.Name(), sortBool, retReach)
 	nres := fn.Signature.Results().Len()
@@ -662,6 +665,7 @@ func (fr *frame) execInstr(ins ssa.Instruction, st *State, env map[ssa.Value]Val
 		switch bt := types.Unalias(x.X.Type()).Underlying().(type) {
 		case *types.Slice:
 			es := reg.sortOf(bt.Elem())
+			vc.noteIndexTerm(idx)
 			safety("index", x.X.Name(), x.Pos(), "(and (<= 0 "+idx+") (< "+idx+" (slen "+base.t+")))")
 			env[x] = Val{ip: &IPtr{root: rootElem, heap: heapKeyElem(es), vsort: es, ref: "(sref " + base.t + ")", idx: "(+ (soff " + base.t + ") " + idx + ")", rootT: bt.Elem()}}
 		case *types.Pointer:
